@@ -128,6 +128,16 @@ class Real:
     def fmul(s, a, b):
         if isinstance(a, Special) or isinstance(b, Special):
             if a is RNAN or b is RNAN: return RNAN
+            # IEEE: 0 * inf = NaN; (finite non-zero) * inf = +-inf; inf * inf = +-inf
+            def sgn(v):
+                if v is RINF: return 1
+                if v is RNINF: return -1
+                if isinstance(v, Fraction): return (v > 0) - (v < 0)
+                return None
+            sa, sb = sgn(a), sgn(b)
+            if sa is not None and sb is not None:
+                if sa == 0 or sb == 0: return RNAN
+                return RINF if sa * sb > 0 else RNINF
             raise Unsupported("inf * x in REAL domain")
         if isinstance(a, Fraction) and a == 0 and not isinstance(b, Special): return Fraction(0)
         if isinstance(b, Fraction) and b == 0: return Fraction(0)
@@ -251,6 +261,7 @@ class Real:
             if name == 'isnan': return int(args[0] is RNAN)
             if name == 'fabs':
                 return RNAN if args[0] is RNAN else RINF
+            if name == 'sqrt': return RINF if args[0] is RINF else RNAN
             raise Unsupported("libm %s on special" % name)
         if name == 'nan': return RNAN
         if name == 'isnan': return 0
